@@ -90,16 +90,19 @@ func o1Weighted(win, wout int64) {
 // O1 for integer weight ratios 2:1, 3:1, 4:1 (Pow takes the integer Power branch).
 //vrf:cover swap-ok
 //vrf:bound weights 2:1; Bout <= 1e17
+//vrf:summary-opt github.com/elys-network/elys/x/amm/types.powerApproximation => sumPowApprox
 func H_O1_CalcOutGivenIn_2to1() { o1Weighted(2, 1) }
 
 //vrf:cover swap-ok
 //vrf:tier thorough
 //vrf:bound weights 3:1; Bout <= 1e17
+//vrf:summary-opt github.com/elys-network/elys/x/amm/types.powerApproximation => sumPowApprox
 func H_O1_CalcOutGivenIn_3to1() { o1Weighted(3, 1) }
 
 //vrf:cover swap-ok
 //vrf:tier thorough
 //vrf:bound weights 4:1; Bout <= 1e17
+//vrf:summary-opt github.com/elys-network/elys/x/amm/types.powerApproximation => sumPowApprox
 func H_O1_CalcOutGivenIn_4to1() { o1Weighted(4, 1) }
 
 // O2 (exact-out, equal weights): the charged input is at least the exact formula minus one unit:
@@ -256,3 +259,69 @@ func H_O5_OracleSwap_ExactIn() {
 	// out*pu <= in*pa + pu   (price mantissas)
 	vrf.Assert(pu.MulInt(out.Amount).LTE(pa.MulInt(in).Add(pu)), "O5: value out <= value in + one output unit")
 }
+
+// ---- weighted pools, exact-out; fractional exponents ----
+
+var powCalls int
+
+// contract of powerApproximation for a fractional exponent e in (0,1): the real power b^e within 1e-6
+// (Bernoulli: for b >= 1, 1 + e(b-1)/b <= b^e <= 1 + e(b-1); for b < 1, 1 - e(1-b)/b <= b^e <= 1 - e(1-b)).
+// The unchanged tree never reaches it from the harnesses below (their weight ratios are integers); a change
+// that mixes up the weights does, and any counter-example found under it is confirmed by concrete re-execution
+// of the real series code.
+func sumPowApprox(base, exp sdkmath.LegacyDec) (sdkmath.LegacyDec, error) {
+	powCalls++
+	r := vrf.Dec("powApprox" + string(rune('0'+powCalls)))
+	tol := sdkmath.LegacyNewDecWithPrec(1, 6)
+	one := sdkmath.LegacyOneDec()
+	vrf.Assume(r.IsPositive())
+	if base.GTE(one) {
+		x := base.Sub(one)
+		vrf.Assume(r.LTE(one.Add(exp.Mul(x)).Add(tol)))
+		vrf.Assume(r.Sub(one).Add(tol).Mul(base).GTE(exp.Mul(x)))
+	} else {
+		x := one.Sub(base)
+		vrf.Assume(r.LTE(one.Sub(exp.Mul(x)).Add(tol)))
+		vrf.Assume(one.Sub(r).Sub(tol).Mul(base).LTE(exp.Mul(x)))
+	}
+	return r, nil
+}
+
+func o2Weighted(win, wout int64) {
+	bin, bout, out := vrf.Int("Bin"), vrf.Int("Bout"), vrf.Int("out")
+	fee := feeIn2pct()
+	vrf.Assume(bin.IsPositive())
+	vrf.Assume(bout.IsPositive())
+	vrf.Assume(out.IsPositive())
+	vrf.Assume(out.LT(bout))
+	vrf.Assume(bin.LTE(sdkmath.NewIntWithDecimal(1, 17)))
+	pool := mkPool(bin, bout, win, wout, fee)
+	var ctx sdk.Context
+	in, _, err := pool.CalcInAmtGivenOut(ctx, nil, &pool, sdk.Coins{sdk.Coin{Denom: "uusdc", Amount: out}}, "uatom", fee, noAcc{})
+	if err != nil {
+		return
+	}
+	vrf.Cover("swap-ok")
+	vrf.Observe("in", in.Amount)
+	// exact: in*(1-fee) = Bin*((Bout/(Bout-out))^k - 1), k = wout/win integer; (1+x)^k - 1 >= k*x, so every k >= 1 needs
+	// (in+1)*(1-fee)*(Bout-out) >= k*Bin*out
+	k := wout / win
+	f1 := sdkmath.LegacyOneDec().Sub(fee)
+	lhs := f1.MulInt(in.Amount.AddRaw(1)).MulInt(bout.Sub(out))
+	rhs := sdkmath.LegacyNewDecFromInt(bin).MulInt(out).MulInt64(k)
+	vrf.Assert(lhs.GTE(rhs), "O2w: charged input >= k*Bin*out/(Bout-out) - 1 base unit (Bernoulli bound of the weighted formula)")
+}
+
+// O2 for weight ratios 1:2 (the bought asset is the heavier one; Pow takes the integer Power branch)
+//vrf:cover swap-ok
+//vrf:bound weights 1:2; Bin <= 1e17; Bout, out unbounded; fee in [0, 2%]
+//vrf:summary-opt github.com/elys-network/elys/x/amm/types.powerApproximation => sumPowApprox
+//vrf:assert-ms 120000
+func H_O2_CalcInGivenOut_1to2() { o2Weighted(1, 2) }
+
+//vrf:cover swap-ok
+//vrf:tier thorough
+//vrf:bound weights 1:3; Bin <= 1e17
+//vrf:summary-opt github.com/elys-network/elys/x/amm/types.powerApproximation => sumPowApprox
+//vrf:assert-ms 120000
+func H_O2_CalcInGivenOut_1to3() { o2Weighted(1, 3) }
